@@ -61,6 +61,21 @@ pub fn overheads() -> Option<[u128; 4]> {
     c.sched.with_state(|st| st.clock.as_ref().map(|c| c.overheads))
 }
 
+/// The one-off measurement behind `Timer::bench_overheads` takes time (some
+/// milliseconds on real hardware): the scripted path spends the scenario's
+/// `overhead_measure_cost` ticks here and says so.
+pub fn charge_overhead_measurement() {
+    if let Some(c) = sched::ctx() {
+        c.sched.point(c.tid, Op::Step, |st| {
+            if let Some(clock) = &mut st.clock {
+                let cost = clock.overhead_measure_cost;
+                clock.now = clock.now.saturating_add(cost);
+                st.log(c.tid, &Ev::new("overheads_measured").u("cost", cost as u128));
+            }
+        });
+    }
+}
+
 /// Whether a virtual clock is installed on this thread.
 pub fn installed() -> bool {
     frequency().is_some()
